@@ -202,6 +202,9 @@ def _events():
             var("V:%s:%s:STRESS_CAUCHY" % (slot, st), slot, st, "STRESS_CAUCHY", "ELEMENT_NODAL", ELNODAL_COLS["STRESS_CAUCHY"], False)
             var("V:%s:%s:E" % (slot, st), slot, st, "E", "ELEMENT_NODAL", ELNODAL_COLS["E"], False)
             var("V:%s:%s:EN" % (slot, st), slot, st, "EN", "ELEMENT_NODAL", ["v"], True)
+            # ... handed over as a re-ordered copy of the geometry's frame: same rows, element blocks in reversed order
+            # of first appearance (a variable frame need not list the elements in the order of the geometry frame)
+            ev["V:%s:%s:EN" % (slot, st)]["rows"] = "blocks-reversed"
             # a variable that exists only on the elements of the stored element set: the frame handed over is a boolean-mask
             # slice of the geometry's frame (rows of the other elements dropped, their ids still among the index levels)
             var("V:%s:%s:ENSUB" % (slot, st), slot, st, "ENSUB", "ELEMENT_NODAL", ["v"], True)
